@@ -25,7 +25,7 @@ def gen_heading_doc(rng):
     doc = gen_md.Doc()
     k = rng.random()
     if k < 0.15:
-        doc.add(["Intro paragraph.", ""])
+        doc.add([rng.choice(["Intro paragraph.", "Needs {2} eggs per person.", "Makes {1/2} litre; `{3}` is code."]), ""])
     if k > 0.9:
         gen_md.gen_heading(rng, doc, level=rng.choice([2, 3]))
     gen_md.gen_heading(rng, doc)
@@ -115,7 +115,8 @@ def oracle(run):
            ("# *Fancy* soup\n\n# Stew for 6\n", (None, None)), ("# Soup with {2} eggs\n\n# Stew for 6\n", (None, None)),
            ("# <b>x</b>\n\ntext\n\n# Stew for 6\n", (None, None)), ("# `code` pie\n\n# Pie for 3\n", (None, None)),
            ("# Plum Preserves 2\n", ("Plum Preserves 2", None)), ("# Remakes 3\n", ("Remakes 3", None)), ("# Uniform 4\n", ("Uniform 4", None)),
-           ("# Pie, serves 4\n", ("Pie,", 4))]
+           ("# Pie, serves 4\n", ("Pie,", 4)), ("Needs {2} eggs per person.\n\n# Pancakes for 4\n", ("Pancakes", 4)),
+           ("Grandma's famous\nSunday roast for 6\n===\n", ("Grandma's famous\nSunday roast", 6)), ("Two line\ntitle\n=====\n", ("Two line\ntitle", None))]
     for doc, (t, n) in neg:
         mr = M.compile_markdown(doc)
         run.case(("negative", doc), True, kind="negative")
